@@ -64,3 +64,65 @@ func TestTokMM(t *testing.T) {
 		t.Fatal(parts, closed, problem)
 	}
 }
+
+// The bare error object handler.Server's recover writes after a payload that
+// could not be encoded: token errblob only as the unterminated tail of the
+// body; the garbled event of a buffer that kept the residue of a failed
+// serialization is `bad`; the generated-code oracle requires every payload's
+// data byte for byte.
+func TestErrBlobAndGenOracle(t *testing.T) {
+	blob := `{"errors":[{"message":"internal system error"}],"data":null}`
+	ev := func(id, size int) string { return "event: next\ndata: {\"data\":" + dataJSON(id, size) + "}\n\n" }
+	ks := func(ts []Tok) string {
+		s := ""
+		for _, k := range ts {
+			s += k.K + " "
+		}
+		return s
+	}
+	if got := ks(tokSSE([]byte(":\n\n"+ev(1, 10)+blob), []int{10, 10}, false, false)); got != "pre next errblob " {
+		t.Fatal(got)
+	}
+	if got := ks(tokSSE([]byte(":\n\n"+ev(1, 10)+blob+"\n\n"), []int{10, 10}, false, false)); got != "pre next bad " {
+		t.Fatal(got) // a terminated block holding the object is not what the recover path writes
+	}
+	if got := ks(tokSSE([]byte(":\n\nevent: next\ndata: "+ev(1, 10)+ev(2, 10)+"event: complete\n\n"), []int{10, 10}, false, false)); got != "pre bad next complete " {
+		t.Fatal(got)
+	}
+	mm := "--verif\r\nContent-Type: application/json\r\n\r\n{\"data\":" + dataJSON(0, 8) + ",\"hasNext\":true}\r\n--verif\r\nContent-Type: application/json\r\n\r\n" + blob
+	if got := ks(tokMM([]byte(mm), "verif", 2, []int{8, 8, 8}, false)); got != "bnd hdr init bnd hdr errblob " {
+		t.Fatal(got)
+	}
+	if got := ks(tokMM([]byte(mm+"\r\n--verif--\r\n"), "verif", 2, []int{8, 8, 8}, false)); got != "bnd hdr init bnd hdr bad close " {
+		t.Fatal(got)
+	}
+	g := &genCase{Expect: map[string]string{"init": `{"a":{"id":"a.id","g1":null,"g2":null}}`, "L1@a": `{"g1":"xx"}`, "L2@a": `{"g2":"yy"}`},
+		ProducedKeys: []string{"init", "L2@a", "L1@a"}}
+	part := func(items ...string) string {
+		s := `{"incremental":[`
+		for i, it := range items {
+			if i > 0 {
+				s += ","
+			}
+			s += it
+		}
+		return s + `],"hasNext":false}`
+	}
+	l2 := `{"data":{"g2":"yy"},"label":"L2","path":["a"],"hasNext":true}`
+	l1 := `{"data":{"g1":"xx"},"label":"L1","path":["a"],"hasNext":false}`
+	if tk, ok := g.matchMM(part(l2, l1)); !ok || fmt.Sprint(tk.IDs) != "[1 2]" || tk.HN != "f" {
+		t.Fatal(tk, ok)
+	}
+	for _, bad := range []string{
+		part(l2, `{"data":{"g2":"yy"},"label":"L1","path":["a"],"hasNext":false}`), // L1 delivered with L2's bytes
+		part(l2, `{"data":{"g1":"xx"},"label":"L1","path":["a"],"hasNext":true}`),  // hasNext discipline
+		part(l2, `{"data":{"g1":"xx"},"label":"L3","path":["a"],"hasNext":false}`), // a payload nobody produced
+	} {
+		if _, ok := g.matchMM(bad); ok {
+			t.Errorf("accepted: %s", bad)
+		}
+	}
+	if id, ok := g.matchSSE(`{"data":{"a":{"id":"a.id","g1":null,"g2":null}},"hasNext":true}`); !ok || id != 1 {
+		t.Fatal(id, ok)
+	}
+}
